@@ -1,7 +1,16 @@
 ------------------------------- MODULE Quicksort -------------------------------
 (* Implementation-shaped model of esutil.algorithm.quicksort /                     *)
-(* quicksort_keyvalue: the recursion of _quicksort is an explicit stack of         *)
-(* <<start, end>> ranges, the labels of the partition follow the loops of          *)
+(* quicksort_keyvalue: the control flow of _quicksort is an explicit stack of      *)
+(* <<start, end, depth>> ranges - after a partition the code RECURSES into the     *)
+(* smaller part and LOOPS over the larger one (SmallerFirst = TRUE): the smaller   *)
+(* part is finished first, one call deeper, the larger part follows in the same    *)
+(* activation.  `depth` is the number of _quicksort activations on the call stack  *)
+(* while the range is worked on; DepthInv: size * 2^depth <= len, i.e. the depth   *)
+(* stays below log2(len) also for already ordered input.  SmallerFirst = FALSE is  *)
+(* the pinned code (left part, then right part, one call deeper each): it sorts    *)
+(* just as well but violates DepthInv - ordered input costs one activation per     *)
+(* element, the RecursionError the scale cases of SortScale.tla re-find.           *)
+(* The labels of the partition follow the loops of                                 *)
 (* algorithm.partition / partition_keyvalue (hole-based exchange: the pivot is     *)
 (* lifted out, elements are moved into the hole from alternating ends, `fin` puts  *)
 (* the pivot back).  Indices are 1-based here (0-based in the code).               *)
@@ -21,12 +30,13 @@ EXTENDS Algo, Json
 CONSTANTS MaxLen,     \* arrays of length 0..MaxLen
           Vals,       \* over these keys
           KVCarry,    \* TRUE: values move with their keys (the code as written)
+          SmallerFirst, \* TRUE: recurse into the smaller part, loop over the larger (the code); FALSE: pinned code
           Log,        \* TRUE: keep the write log (export runs)
           DoExport    \* TRUE: print input/output/write log of every finished run
 
 (*--fair algorithm Quicksort {
   variables len = 0, input = <<>>, keys = <<>>, vals = <<>>,
-            stack = <<>>, lo = 0, hi = 0,
+            stack = <<>>, lo = 0, hi = 0, dep = 0, maxdep = 0,
             pivot = 0, pvval = 0, bottom = 0, top = 0, done = FALSE,
             wlog = <<>>;
   {
@@ -34,10 +44,12 @@ CONSTANTS MaxLen,     \* arrays of length 0..MaxLen
     choose_a:  with (a \in [1..len -> Vals]) {
                  input := a; keys := a; vals := [i \in 1..len |-> i]
                };
-    qs:        stack := << <<1, len>> >>;                       \* quicksort(): _quicksort(data, 0, len-1)
-    enter:     while (stack # <<>>) {                           \* one activation of _quicksort
-                 lo := Head(stack)[1]; hi := Head(stack)[2]; stack := Tail(stack);
+    qs:        stack := << <<1, len, 1>> >>;                    \* quicksort(): _quicksort(data, 0, len-1)
+    enter:     while (stack # <<>>) {                           \* a range is taken up: a new activation, or the next
+                                                                \* turn of the loop of the activation that split it off
+                 lo := Head(stack)[1]; hi := Head(stack)[2]; dep := Head(stack)[3]; stack := Tail(stack);
                  if (lo < hi) {
+                   maxdep := IF dep > maxdep THEN dep ELSE maxdep;
     part:          pivot := keys[hi]; pvval := vals[hi];        \* partition(data, start, end)
                    bottom := lo - 1; top := hi; done := FALSE;
     outer:         while (~done) {
@@ -63,17 +75,23 @@ CONSTANTS MaxLen,     \* arrays of length 0..MaxLen
                    };
     fin:           keys[top] := pivot; vals[top] := pvval;      \* put the pivot in its place
                    wlog := IF Log THEN Append(wlog, <<top, pivot>>) ELSE wlog;
-    recurse:       stack := << <<lo, top - 1>>, <<top + 1, hi>> >> \o stack   \* left half first, then right
+    recurse:       if (~SmallerFirst) {                          \* pinned code: left, then right, a call each
+                     stack := << <<lo, top - 1, dep + 1>>, <<top + 1, hi, dep + 1>> >> \o stack
+                   } else if (top - lo < hi - top) {             \* split - start < end - split: call on the left, loop on the right
+                     stack := << <<lo, top - 1, dep + 1>>, <<top + 1, hi, dep>> >> \o stack
+                   } else {                                      \* call on the right, loop on the left
+                     stack := << <<top + 1, hi, dep + 1>>, <<lo, top - 1, dep>> >> \o stack
+                   }
                  }
                }
   }
 }*)
 \* BEGIN TRANSLATION
-VARIABLES pc, len, input, keys, vals, stack, lo, hi, pivot, pvval, bottom, 
-          top, done, wlog
+VARIABLES pc, len, input, keys, vals, stack, lo, hi, dep, maxdep, pivot, 
+          pvval, bottom, top, done, wlog
 
-vars == << pc, len, input, keys, vals, stack, lo, hi, pivot, pvval, bottom, 
-           top, done, wlog >>
+vars == << pc, len, input, keys, vals, stack, lo, hi, dep, maxdep, pivot, 
+           pvval, bottom, top, done, wlog >>
 
 Init == (* Global variables *)
         /\ len = 0
@@ -83,6 +101,8 @@ Init == (* Global variables *)
         /\ stack = <<>>
         /\ lo = 0
         /\ hi = 0
+        /\ dep = 0
+        /\ maxdep = 0
         /\ pivot = 0
         /\ pvval = 0
         /\ bottom = 0
@@ -95,8 +115,8 @@ choose_n == /\ pc = "choose_n"
             /\ \E n \in 0..MaxLen:
                  len' = n
             /\ pc' = "choose_a"
-            /\ UNCHANGED << input, keys, vals, stack, lo, hi, pivot, pvval, 
-                            bottom, top, done, wlog >>
+            /\ UNCHANGED << input, keys, vals, stack, lo, hi, dep, maxdep, 
+                            pivot, pvval, bottom, top, done, wlog >>
 
 choose_a == /\ pc = "choose_a"
             /\ \E a \in [1..len -> Vals]:
@@ -104,25 +124,28 @@ choose_a == /\ pc = "choose_a"
                  /\ keys' = a
                  /\ vals' = [i \in 1..len |-> i]
             /\ pc' = "qs"
-            /\ UNCHANGED << len, stack, lo, hi, pivot, pvval, bottom, top, 
-                            done, wlog >>
+            /\ UNCHANGED << len, stack, lo, hi, dep, maxdep, pivot, pvval, 
+                            bottom, top, done, wlog >>
 
 qs == /\ pc = "qs"
-      /\ stack' = << <<1, len>> >>
+      /\ stack' = << <<1, len, 1>> >>
       /\ pc' = "enter"
-      /\ UNCHANGED << len, input, keys, vals, lo, hi, pivot, pvval, bottom, 
-                      top, done, wlog >>
+      /\ UNCHANGED << len, input, keys, vals, lo, hi, dep, maxdep, pivot, 
+                      pvval, bottom, top, done, wlog >>
 
 enter == /\ pc = "enter"
          /\ IF stack # <<>>
                THEN /\ lo' = Head(stack)[1]
                     /\ hi' = Head(stack)[2]
+                    /\ dep' = Head(stack)[3]
                     /\ stack' = Tail(stack)
                     /\ IF lo' < hi'
-                          THEN /\ pc' = "part"
+                          THEN /\ maxdep' = (IF dep' > maxdep THEN dep' ELSE maxdep)
+                               /\ pc' = "part"
                           ELSE /\ pc' = "enter"
+                               /\ UNCHANGED maxdep
                ELSE /\ pc' = "Done"
-                    /\ UNCHANGED << stack, lo, hi >>
+                    /\ UNCHANGED << stack, lo, hi, dep, maxdep >>
          /\ UNCHANGED << len, input, keys, vals, pivot, pvval, bottom, top, 
                          done, wlog >>
 
@@ -133,14 +156,15 @@ part == /\ pc = "part"
         /\ top' = hi
         /\ done' = FALSE
         /\ pc' = "outer"
-        /\ UNCHANGED << len, input, keys, vals, stack, lo, hi, wlog >>
+        /\ UNCHANGED << len, input, keys, vals, stack, lo, hi, dep, maxdep, 
+                        wlog >>
 
 outer == /\ pc = "outer"
          /\ IF ~done
                THEN /\ pc' = "up"
                ELSE /\ pc' = "fin"
-         /\ UNCHANGED << len, input, keys, vals, stack, lo, hi, pivot, pvval, 
-                         bottom, top, done, wlog >>
+         /\ UNCHANGED << len, input, keys, vals, stack, lo, hi, dep, maxdep, 
+                         pivot, pvval, bottom, top, done, wlog >>
 
 up == /\ pc = "up"
       /\ IF ~done
@@ -159,7 +183,8 @@ up == /\ pc = "up"
                             /\ done' = done
             ELSE /\ pc' = "dn"
                  /\ UNCHANGED << keys, vals, bottom, done, wlog >>
-      /\ UNCHANGED << len, input, stack, lo, hi, pivot, pvval, top >>
+      /\ UNCHANGED << len, input, stack, lo, hi, dep, maxdep, pivot, pvval, 
+                      top >>
 
 dn == /\ pc = "dn"
       /\ IF ~done
@@ -178,21 +203,26 @@ dn == /\ pc = "dn"
                             /\ done' = done
             ELSE /\ pc' = "outer"
                  /\ UNCHANGED << keys, vals, top, done, wlog >>
-      /\ UNCHANGED << len, input, stack, lo, hi, pivot, pvval, bottom >>
+      /\ UNCHANGED << len, input, stack, lo, hi, dep, maxdep, pivot, pvval, 
+                      bottom >>
 
 fin == /\ pc = "fin"
        /\ keys' = [keys EXCEPT ![top] = pivot]
        /\ vals' = [vals EXCEPT ![top] = pvval]
        /\ wlog' = IF Log THEN Append(wlog, <<top, pivot>>) ELSE wlog
        /\ pc' = "recurse"
-       /\ UNCHANGED << len, input, stack, lo, hi, pivot, pvval, bottom, top, 
-                       done >>
+       /\ UNCHANGED << len, input, stack, lo, hi, dep, maxdep, pivot, pvval, 
+                       bottom, top, done >>
 
 recurse == /\ pc = "recurse"
-           /\ stack' = << <<lo, top - 1>>, <<top + 1, hi>> >> \o stack
+           /\ IF ~SmallerFirst
+                 THEN /\ stack' = << <<lo, top - 1, dep + 1>>, <<top + 1, hi, dep + 1>> >> \o stack
+                 ELSE /\ IF top - lo < hi - top
+                            THEN /\ stack' = << <<lo, top - 1, dep + 1>>, <<top + 1, hi, dep>> >> \o stack
+                            ELSE /\ stack' = << <<top + 1, hi, dep + 1>>, <<lo, top - 1, dep>> >> \o stack
            /\ pc' = "enter"
-           /\ UNCHANGED << len, input, keys, vals, lo, hi, pivot, pvval, 
-                           bottom, top, done, wlog >>
+           /\ UNCHANGED << len, input, keys, vals, lo, hi, dep, maxdep, pivot, 
+                           pvval, bottom, top, done, wlog >>
 
 (* Allow infinite stuttering to prevent deadlock on termination. *)
 Terminating == pc = "Done" /\ UNCHANGED vars
@@ -239,9 +269,17 @@ SplitInv == InPartition =>
 \* pending ranges never leave the array and never overlap
 StackInv == \A i \in DOMAIN stack :
     /\ stack[i][1] >= 1 /\ stack[i][2] <= len
-    /\ \A j \in DOMAIN stack : i < j => stack[i][2] < stack[j][1] \/ stack[i][1] > stack[i][2] \/ stack[j][1] > stack[j][2]
-
+    /\ \A j \in DOMAIN stack : i < j =>
+          \/ stack[i][2] < stack[j][1] \/ stack[j][2] < stack[i][1]            \* apart (the smaller part comes first, on either side)
+          \/ stack[i][1] > stack[i][2] \/ stack[j][1] > stack[j][2]            \* or one of them is empty
+\* the call stack stays shallow: a range of m elements worked on at depth d has m * 2^(d-1) <= len
+\* (every call halves what it is given; the loop keeps the depth)
+RECURSIVE Pow2(_)
+Pow2(k) == IF k <= 0 THEN 1 ELSE 2 * Pow2(k - 1)
+DepthInv ==
+    /\ \A i \in DOMAIN stack : stack[i][1] <= stack[i][2] => (stack[i][2] - stack[i][1] + 1) * Pow2(stack[i][3] - 1) <= len
+    /\ (pc \notin {"choose_n", "choose_a", "qs", "Done"} /\ 1 <= lo /\ lo <= hi) => (hi - lo + 1) * Pow2(dep - 1) <= len
 \* ---- export ---------------------------------------------------------------------------
 Export == (DoExport /\ pc = "Done") =>
-    PrintT(<<"CASE", ToJson([keys |-> input, out |-> keys, vals |-> vals, wlog |-> wlog])>>)
+    PrintT(<<"CASE", ToJson([keys |-> input, out |-> keys, vals |-> vals, wlog |-> wlog, maxdep |-> maxdep])>>)
 =============================================================================
